@@ -37,9 +37,12 @@ DOUBLE_LITS = ['0.0', '1.0', '-1.0', '1.5', '1.7', '-0.5', '2.0', '5.0', '100.0'
                '0.1000000000000000055511151231257827021181583404541015625', '1.7976931348623157e308', '1.7976931348623159e308']
 STR_LITS = ['', 'abc', 'ABC', 'aBc', 'ab', 'b', 'bc', 'x', ' abc', 'abc ', ' ', 'É', 'é', 'ß', 'Σ', 'ς', '日本', '1', 'true', 'a b', '1.0.0']
 VER_LITS = ['1.0.0', '1.9.0', '1.10.0', '2.0.0', '0.0.0', '1.0.1', '18446744073709551615.0.0', '18446744073709551616.0.0', '10.2.33']
-INTS_LITS = [['1'], ['1', '2', '5'], ['5', '1', '1'], ['0'], ['9223372036854775807'], ['9223372036854775808'], ['2', '9007199254740993', '100']]
-DOUBLES_LITS = [['1.0'], ['1.5', '2.5'], ['2.5', '1.5', '1.5'], ['0.0'], ['1.0e999'], ['1.7', '100.0', '-0.5']]
-STRINGS_LITS = [['abc'], ['ABC', 'b'], ['b', 'ABC', 'b'], [''], ['É', 'x'], ['1.0.0']]
+INTS_LITS = [['1'], ['1', '2', '5'], ['5', '1', '1'], ['0'], ['9223372036854775807'], ['9223372036854775808'], ['2', '9007199254740993', '100'],
+             ['40', '7', '19', '1', '88', '21', '5', '64', '12'], ['9', '8', '7', '6', '5', '4', '3', '2', '1', '0'], ['1', '2', '3', '4', '5', '6', '7', '8', '9', '10', '11', '12'],
+             ['5', '3', '5', '100', '3', '2', '2', '1', '7', '0', '5']]
+DOUBLES_LITS = [['1.0'], ['1.5', '2.5'], ['2.5', '1.5', '1.5'], ['0.0'], ['1.0e999'], ['1.7', '100.0', '-0.5'],
+                ['40.5', '7.25', '19.0', '1.5', '88.0', '21.0', '5.0', '64.0', '1.0'], ['9.5', '8.5', '7.5', '6.5', '5.0', '4.5', '3.5', '2.5', '1.5', '0.5']]
+STRINGS_LITS = [['abc'], ['ABC', 'b'], ['b', 'ABC', 'b'], [''], ['É', 'x'], ['1.0.0'], ['z', 'y', 'x', 'w', 'v', 'u', 'abc', 't', 's', 'b']]
 
 def all_literals():
     out = [('bool', 'true'), ('bool', 'false'), ('null',)]
